@@ -1,6 +1,7 @@
 use crate::common::Emitter;
 pub mod c13;
 pub mod c14;
+pub mod gsess;
 pub mod per;
 pub mod c18;
 pub mod c19;
@@ -15,6 +16,7 @@ pub fn replay(prop: &str, line: &str, em: &mut Emitter) {
         "blit" => c19::run_case(&toks, em),
         "msg_wr" | "msg_rd" | "msg_rt" => c18::run_case(&toks, em),
         op if op.starts_with("per_") => per::run_case(&toks, em),
+        "gsess" => gsess::run_case(&toks, em),
         _ => { let _ = prop; eprintln!("unknown op {}", toks[0]); }
     }
 }
@@ -26,6 +28,9 @@ pub fn generate(prop: &str, thorough: bool, seed: u64, em: &mut Emitter) {
         "C14" => c14::generate(thorough, seed, part, em),
         "C19" => c19::generate(thorough, seed, part, em),
         "C18" => c18::generate(thorough, seed, part, em),
+        "C10" => gsess::generate_c10(thorough, seed, part, em),
+        "C11" => gsess::generate_c11(thorough, seed, part, em),
+        "C12" => gsess::generate_c12(thorough, seed, part, em),
         _ => { eprintln!("unknown property {}", prop); std::process::exit(2); }
     }
 }
